@@ -259,7 +259,7 @@ impl StateMonitor {
         let src = match drive::via_builder(&facts, Some(rng), defaults) {
             Ok(o) => o,
             Err(e) => {
-                out.violate("C01", "construct_failed/sub_source", format!("{e}"));
+                out.violate(self.prop, "construct_failed/sub_source", format!("{e}"));
                 return;
             }
         };
@@ -271,8 +271,13 @@ impl StateMonitor {
             out.bucket("sub_source_without_edges");
             return;
         }
-        let root = *rng.pick(&cands);
+        // C02/C03 want annotations on modifier and phenotype branches alike: prefer HP:1 as root there
+        let root = if self.prop != "C01" && defaults && rng.chance(1, 2) { 1 } else { *rng.pick(&cands) };
         let below: Vec<u32> = m.desc[&root].iter().copied().collect();
+        if below.is_empty() {
+            out.bucket("sub_source_without_edges");
+            return;
+        }
         let k = rng.urange(1, 5);
         let leaves: Vec<u32> = (0..k).map(|_| *rng.pick(&below)).collect();
         out.case = Json::obj()
@@ -290,11 +295,11 @@ impl StateMonitor {
         let sub = match sub {
             Ok(Ok(o)) => o,
             Ok(Err(e)) => {
-                out.violate("C01", "construct_failed/sub_ontology", format!("sub_ontology({root}, {leaves:?}) = Err({e}) for leaves below root"));
+                out.violate(self.prop, "construct_failed/sub_ontology", format!("sub_ontology({root}, {leaves:?}) = Err({e}) for leaves below root"));
                 return;
             }
             Err(p) => {
-                out.violate("C01", "construct_panic/sub_ontology", format!("{} at {}", p.message, p.location));
+                out.violate(self.prop, "construct_panic/sub_ontology", format!("{} at {}", p.message, p.location));
                 return;
             }
         };
@@ -302,14 +307,51 @@ impl StateMonitor {
         let obs = crate::observe::walk(&sub, &[], &mut out.events);
         out.nontrivial = obs.terms.len() >= 3;
         for p in &obs.panics {
-            if owns("C01", &format!("panic:{}", p.accessor)) {
-                out.violate("C01", &format!("panic:{}/sub_ontology", p.accessor), format!("{}({}) panicked: {}", p.accessor, p.id, p.info.message));
+            if owns(self.prop, &format!("panic:{}", p.accessor)) {
+                out.violate(self.prop, &format!("panic:{}/sub_ontology", p.accessor), format!("{}({}) panicked: {}", p.accessor, p.id, p.info.message));
             }
         }
         for (site, detail) in &obs.anomalies {
-            if owns("C01", site) {
-                out.violate("C01", &format!("{site}/sub_ontology"), detail.clone());
+            if owns(self.prop, site) {
+                out.violate(self.prop, &format!("{site}/sub_ontology"), detail.clone());
             }
+        }
+        if self.prop != "C01" {
+            // the result's own facts: observed terms, observed direct parents, observed records
+            let mut own = FactSet::default();
+            for (id, t) in &obs.terms {
+                own.terms.push(TermFact { id: *id, name: t.name.clone(), obsolete: t.obsolete, replaced_by: t.replacement });
+                for p in &t.parents {
+                    own.edges.push((*id, *p));
+                }
+            }
+            for k in 0..3 {
+                for (rid, r) in &obs.recs[k] {
+                    own.recs[k].push(crate::facts::RecFact { id: *rid, name: r.name.clone(), terms: r.terms.clone() });
+                    // every kept record lists exactly its source direct terms that were retained
+                    let exp: Vec<u32> = m.direct[k].get(rid).map(|d| d.iter().copied().filter(|t| obs.terms.contains_key(t)).collect()).unwrap_or_default();
+                    if self.prop == "C02" {
+                        out.check(r.terms == exp, "C02", &format!("{}_terms/sub_ontology", KIND_NAMES[k]), || {
+                            format!("{} {rid} in sub_ontology({root}, {leaves:?}) lists {:?}; its source direct terms among the retained terms are {exp:?}", KIND_NAMES[k], r.terms)
+                        });
+                    }
+                }
+            }
+            let om = Model::new(&own, false);
+            if self.prop == "C02" {
+                for (id, t) in &obs.terms {
+                    for k in 0..3 {
+                        let exp: Vec<u32> = om.links[k][id].iter().copied().collect();
+                        out.check(t.links[k] == exp, "C02", &format!("links_{}/sub_ontology", KIND_NAMES[k]), || {
+                            format!("term {id} in sub_ontology({root}, {leaves:?}): {} links {:?}, records directly annotated to it or a descendant: {exp:?}", KIND_NAMES[k], t.links[k])
+                        });
+                    }
+                }
+                self.c02_extra(&om, &own, out);
+            } else {
+                self.c03_checks(&om, &obs, out);
+            }
+            return;
         }
         self.self_consistency_c01(&obs, out, "/sub_ontology");
         // child_of / parent_of against the closure of the result's own direct parents
@@ -363,6 +405,50 @@ impl StateMonitor {
             "C02" => self.c02_extra(&model, &view, out),
             "C03" => self.c03_checks(&model, &obs, out),
             _ => {}
+        }
+    }
+
+    /// C03 at the documented population limit: 65 535 records of a kind must work exactly; above it the
+    /// library documents an error (counts cannot be converted to f32 safely) – an Ok result must still
+    /// follow the formula.
+    fn big_population_case(&self, idx: usize, out: &mut CaseOut) {
+        let kind = idx % 3;
+        let n_records = [65_535usize, 65_536, 65_537, 70_000][(idx / 3) % 4];
+        let mut f = FactSet::default();
+        for id in 1..=5u32 {
+            f.terms.push(TermFact { id, name: format!("t{id}"), obsolete: false, replaced_by: None });
+            if id > 1 {
+                f.edges.push((id, id - 1));
+            }
+        }
+        for r in 0..n_records as u32 {
+            let terms = match r {
+                0 => vec![5],
+                1 => vec![3, 4],
+                2 => vec![2],
+                _ => vec![],
+            };
+            f.recs[kind].push(crate::facts::RecFact { id: r + 1, name: format!("r{r}"), terms });
+        }
+        // a few records of another kind so that totals differ
+        f.recs[(kind + 1) % 3].push(crate::facts::RecFact { id: 1, name: "other".into(), terms: vec![4] });
+        out.sig = crate::rng::hash_u64s(&[0xb16, idx as u64]);
+        out.nontrivial = true;
+        out.case = Json::obj().set("kind", Json::s(KIND_NAMES[kind])).set("records_of_kind", Json::us(n_records)).set("terms", Json::s("chain 5->4->3->2->1"));
+        out.bucket(&format!("population/{}", if n_records > 65_535 { "above_u16" } else { "at_u16_max" }));
+        match drive::via_builder(&f, None, false) {
+            Ok(ont) => {
+                let model = Model::new(&f, false);
+                let ids: Vec<u32> = f.terms.iter().map(|t| t.id).collect();
+                let obs = crate::observe::walk(&ont, &ids, &mut out.events);
+                self.c03_checks(&model, &obs, out);
+                out.bucket("population/accepted");
+            }
+            Err(BuildFail::Err(e)) => {
+                out.check(n_records > 65_535, "C03", "population_at_limit_refused", || format!("{n_records} {} records refused: {e}", KIND_NAMES[kind]));
+                out.bucket("population/refused_with_error");
+            }
+            Err(BuildFail::Panic(p)) => out.violate("C03", "population_panics", format!("{n_records} records: {} at {}", p.message, p.location)),
         }
     }
 
@@ -557,7 +643,12 @@ impl Monitor for StateMonitor {
         for i in 0..SHIPPED_FILES.len() {
             v.push(format!("real:{i}"));
         }
-        if self.prop == "C01" {
+        if self.prop == "C03" {
+            for i in 0..12 {
+                v.push(format!("bign:{i}"));
+            }
+        }
+        if matches!(self.prop, "C01" | "C02" | "C03") {
             for i in 0..tier.pick(400, 20_000) {
                 v.push(format!("sub:{i}"));
             }
@@ -577,6 +668,9 @@ impl Monitor for StateMonitor {
     fn mandatory_buckets(&self, _tier: Tier) -> Vec<String> {
         let mut v: Vec<String> = ALL_PATHS.iter().map(|p| format!("path/{}", p.name())).collect();
         v.push("shipped/ontology.hpo".to_string());
+        if matches!(self.prop, "C01" | "C02" | "C03") {
+            v.push("path/sub_ontology".to_string());
+        }
         match self.prop {
             "C01" => {
                 for b in [
@@ -588,7 +682,6 @@ impl Monitor for StateMonitor {
                     "redundant_edge",
                     "child_id_below_parent_id",
                     "ordered_pairs_queried",
-                    "path/sub_ontology",
                 ] {
                     v.push(b.to_string());
                 }
@@ -611,6 +704,8 @@ impl Monitor for StateMonitor {
                     "term_linked_to_all_records",
                     "term_without_annotation",
                     "record_without_terms_counts_in_N",
+                    "population/at_u16_max",
+                    "population/above_u16",
                 ] {
                     v.push(b.to_string());
                 }
@@ -641,6 +736,10 @@ impl Monitor for StateMonitor {
         }
         if label.starts_with("sub:") {
             self.sub_ontology_case(&mut rng, tier, &mut out);
+            return out;
+        }
+        if let Some(i) = label.strip_prefix("bign:") {
+            self.big_population_case(i.parse().unwrap(), &mut out);
             return out;
         }
         if let Some(i) = label.strip_prefix("real:") {
